@@ -10,7 +10,7 @@ pub fn run(args: &[String]) -> String {
             let r = crate::prog_find::search(pid);
             if r.contains("\"found\":true") { r } else { alloc_model::search(seed, 4000) }
         }
-        "C02" | "C07" | "C31" | "C08" => crate::prog_find::search(pid),
+        "C02" | "C07" | "C31" | "C08" | "C25" => crate::prog_find::search(pid),
         "C13" => {
             let r = crate::prog_find::search(pid);
             if r.contains("\"found\":true") { r } else { alloc_model::search(seed, 4000) }
